@@ -170,7 +170,8 @@ func (e *Env) eval(x Expr) CV {
 		if base := indexedBase(x.Body, x.Var); base != nil {
 			func() {
 				defer func() { recover() }()
-				if bc := e.eval(base); bc.k == cvStr {
+				switch bc := e.eval(base); {
+				case bc.k == cvStr:
 					shift = bc.off
 				}
 			}()
@@ -749,6 +750,46 @@ func (e *Env) call(x *ECall) CV {
 			return CV{k: cvStr, arr: a.t, off: "0", n: a.n}
 		}
 		unsupp("contract: str() of kind %d", a.k)
+	case "cbcalls", "cbarg", "cbres":
+		if fx.ghost == nil {
+			fx.ghost = map[string]*Cell{}
+		}
+		get := func(name string) (Val, bool) {
+			c := fx.ghost[name]
+			if c == nil {
+				return Val{}, false
+			}
+			if v, live := e.st.cells[c]; live {
+				return v, true
+			}
+			if c.ghostInit != nil {
+				return *c.ghostInit, true
+			}
+			return Val{}, false
+		}
+		switch x.Fn {
+		case "cbcalls":
+			if v, ok := get("cbcalls"); ok {
+				return cvOf(v)
+			}
+			return CV{k: cvInt, t: "0"}
+		case "cbarg":
+			idx, ok := x.Args[1].(*EInt)
+			if !ok {
+				unsupp("contract: cbarg(k, <literal argument index>)")
+			}
+			v, ok2 := get("cbarg:" + idx.V)
+			if !ok2 {
+				unsupp("contract: no callback call recorded")
+			}
+			return cvOf(v.arrayGet(arg(0).asInt()))
+		default:
+			v, ok := get("cbres")
+			if !ok {
+				unsupp("contract: no callback result recorded")
+			}
+			return cvOf(v.arrayGet(arg(0).asInt()))
+		}
 	case "calls", "callarg", "callres":
 		s, ok := x.Args[0].(*EStr)
 		if !ok {
